@@ -9,7 +9,7 @@ import arch_util as au
 import py2v_arch
 
 CONFIG = {
-    "cone": ["Base/ListUtil.v", "Base/QUtil.v", "Base/FirstArgmax.v", "Model/Store.v", "Proofs/StoreProofs.v", "Model/Archive.v",
+    "cone": ["Base/ListUtil.v", "Base/QUtil.v", "Base/FirstArgmax.v", "Model/Store.v", "Proofs/StoreProofs.v", "Model/Archive.v", "Model/GridFloat.v", "Model/ThrFloat.v",
              "Proofs/ArchiveProofs.v", "Proofs/C01Proofs.v", "Proofs/C02Proofs.v", "Generated/TransGen.v", "Refine/TransRefine.v", "Properties/C05.v"],
     "extra_property_files": ["Refine/TransRefine.v"],
     "trusted": ["harness/py2v_arch.py: fail-closed ast translator of single_entry_with_threshold and of the ratio/new_threshold expressions of "
@@ -95,6 +95,111 @@ def nontrivial(case):
     return case["spec"].get("tmin") is not None and multi and any(len(v) >= 3 for v in per.values())
 
 
+
+# ---------------------------------------------------------------------------------------------
+# bit-exact stream: arbitrary floats, Model/ThrFloat.v evaluated inside Coq (vm_compute on generated case files)
+_THR_RES = None
+
+
+def thrfloat_eval(cases, jobs=8):
+    """cases: list of (mode, f32, t, a, f) python floats -> list of (threshold Fraction, value Fraction) from Model/ThrFloat.v"""
+    import concurrent.futures
+    import os
+    import re
+    import shutil
+    import subprocess
+    import tempfile
+    from common import COQ
+    import c03_util as cu
+    if not cases:
+        return []
+    tmp = tempfile.mkdtemp(prefix="c05cases_")
+    pat = re.compile(r"=\s*\((-?\d+),\s*(-?\d+),\s*\((-?\d+),\s*(-?\d+)\)\)")
+    try:
+        files = []
+        for k in range(0, len(cases), 500):
+            lines = ["From Coq Require Import ZArith.", "From PV Require Import Model.ThrFloat.", "Open Scope Z_scope."]
+            for (mode, f32, t, a, f) in cases[k:k + 500]:
+                args = [mode, f32, *cu.mant_exp(t), *cu.mant_exp(a), *cu.mant_exp(f)]
+                lines.append("Eval vm_compute in (run_thr %s)." % " ".join("(%d)" % x for x in args))
+            path = os.path.join(tmp, "thr_%d.v" % (k // 500))
+            open(path, "w").write("\n".join(lines) + "\n")
+            files.append(path)
+
+        def run_file(path):
+            try:
+                pr = subprocess.run(["timeout", "300", "coqc", "-Q", COQ, "PV", path], stdout=subprocess.PIPE, stderr=subprocess.STDOUT, text=True,
+                                    timeout=330, cwd=os.path.dirname(path))
+                return pr.returncode, pr.stdout
+            except subprocess.TimeoutExpired:
+                return 124, "TIMEOUT"
+        with concurrent.futures.ThreadPoolExecutor(max_workers=jobs) as ex:
+            outs = list(ex.map(run_file, files))
+        res = []
+        for (rc, out), k in zip(outs, range(0, len(cases), 500)):
+            got = pat.findall(out)
+            if rc != 0 or len(got) != len(cases[k:k + 500]):
+                raise RuntimeError("bit-exact threshold model evaluation failed (rc=%s, %d results): %s" % (rc, len(got), out[-500:]))
+            for tm, te, vm, ve in got:
+                res.append((Fraction(int(tm)) * Fraction(2) ** int(te), Fraction(int(vm)) * Fraction(2) ** int(ve)))
+        return res
+    finally:
+        shutil.rmtree(tmp, ignore_errors=True)
+
+
+def bitexact_stream(rep, rng, n):
+    """single-cell CMA-MAE archives, arbitrary float learning rates / thresholds / objectives (both dtypes): after every accepted
+    insertion through add_single or a batch of one, the stored threshold and the reported value must equal Model/ThrFloat.v bit for bit"""
+    from ribs.archives import GridArchive
+    steps, meta = [], []
+    for _ in range(n):
+        dt = rng.choice(["f", "d"])
+        dtype = au.DT[dt]
+        a = float(dtype(rng.choice([rng.random(), rng.random() ** 3, 0.1, 0.3, 1 / 3.0, 0.999, 1e-3])))
+        tmin = float(dtype(rng.choice([-1.0, 0.0, -rng.random() * 100, rng.uniform(-3, 3), -1e-3])))
+        arch = GridArchive(solution_dim=1, dims=[2], ranges=[(0, 1)], learning_rate=a, threshold_min=tmin, dtype=dtype)
+        t = tmin
+        for k in range(rng.randint(1, 6)):
+            scale = rng.choice([1e-6, 1e-3, 0.1, 1.0, 30.0])
+            f = float(dtype(t + abs(rng.gauss(0, 1)) * scale + float(np.spacing(dtype(abs(t) + 1e-30)))))
+            if not (f > t) or not math.isfinite(f):
+                break
+            mode = rng.choice([0, 1])
+            if mode == 0:
+                info = arch.add_single(np.zeros(1, dtype=dtype), dtype(f), np.array([0.25], dtype=dtype))
+                st, val = int(info["status"]), float(info["value"])
+            else:
+                info = arch.add(np.zeros((1, 1), dtype=dtype), np.array([f], dtype=dtype), np.array([[0.25]], dtype=dtype))
+                st, val = int(info["status"][0]), float(info["value"][0])
+            new_t = float(arch.data("threshold")[0])
+            steps.append((mode, 1 if dt == "f" else 0, t, a, f))
+            meta.append({"dtype": dt, "lr": a, "threshold_min": tmin, "step": k, "path": ["add_single", "add([x])"][mode], "t": t, "objective": f,
+                         "impl_threshold": new_t, "impl_value": val, "status": st})
+            t = new_t
+    rep.count("bitexact_steps", len(steps))
+    try:
+        model = thrfloat_eval(steps)
+    except Exception as e:  # noqa
+        rep.violation("the bit-exact threshold model could not be evaluated: %r" % (e,), {"kind": "proof-obligation", "broken": "Model/ThrFloat.v (vm_compute)"},
+                      False, {"kind": "build"})
+        return
+    for (mt, mv), m in zip(model, meta):
+        rep.case({"bitexact": [m["dtype"], m["path"], float(m["t"]).hex(), float(m["lr"]).hex(), float(m["objective"]).hex()]}, m["step"] > 0)
+        it, iv = Fraction(m["impl_threshold"]), Fraction(m["impl_value"])
+        if m["status"] == 0 or it != mt or iv != mv:
+            # a difference of a few units in the last place means the code evaluates an algebraically equivalent expression in another
+            # order (the correspondence with Model/ThrFloat.v is broken, the property is not shown to fail); a larger one is a wrong formula
+            dtp = au.DT[m["dtype"]]
+            tol = 4 * Fraction(au.ulp(max(abs(m["t"]), abs(m["objective"]), 1e-300), dtp))
+            wrong = m["status"] == 0 or abs(it - mt) > tol or abs(iv - mv) > tol
+            rep.violation("CMA-MAE threshold update is not the documented formula evaluated in the archive's floating-point format: %s, t=%r, a=%r, f=%r: "
+                          "threshold %r (model %r), value %r (model %r), status %d" % (m["path"], m["t"], m["lr"], m["objective"], m["impl_threshold"], float(mt),
+                                                                                      m["impl_value"], float(mv), m["status"]),
+                          {"kind": "property", "broken": "Model/ThrFloat.v vs ribs/archives/_transforms.py (bit-exact)", "case": m,
+                           "model_threshold": float(mt), "model_value": float(mv)}, wrong, {"kind": "threshold-float-formula"})
+            return
+
+
 def check(rep, tier, seed, driver):
     py2v_arch.report(rep)
     rng = random.Random(seed)
@@ -131,3 +236,4 @@ def check(rep, tier, seed, driver):
     au.run_cases(rep, "C05", cases, compare=compare, oracle=oracle, nontrivial=nontrivial,
                  what="CMA-MAE threshold rule", broken="Model/Archive.v vs ribs/archives/_transforms.py (_compute_thresholds, batch/single entry)",
                  theorems=["C05_call", "C05_single", "C05_history_monotone"])
+    bitexact_stream(rep, rng, 120 if tier == "quick" else 1500)
